@@ -13,6 +13,9 @@ ops:
   ["adapt", via, [args], p, name]   via = "qa" queryAdapter | "hook" adapter_hook | "multi" queryMultiAdapter
   arg = ["obj", j] | ["super", C, j]
 
+A case with "kind": "reg" is a registry history in the format of reg_common.py (static world with
+super proxies); its observation is the one of reg_driver.py.
+
 Observation: {"mros": [[class ids] per class], "ans": [[ints] per op], "ip": [[ints] or None per op]}
   ans: [] for mutators; [0] exception; [1, kind, id] + sorted flattened interface numbers for a
        specification (kind 0: a specification that is neither a class's nor an instance's, numbered
@@ -155,12 +158,20 @@ def run_case(case):
     return {"mros": mros, "ans": ans, "ip": ips}
 
 
+def run_reg_case(case):
+    import reg_common as R
+    w = R.World(case)
+    answers = R.run_ops(w, case["ops"])
+    return {"specs": w.observed_specs(), "obj_provides": [w.spec_id(R.providedBy(o)) for o in w.objects],
+            "answers": answers}
+
+
 def main():
     payload = _boot.read_payload()
     out = []
     for case in payload["cases"]:
         try:
-            out.append(run_case(case))
+            out.append(run_reg_case(case) if case.get("kind") == "reg" else run_case(case))
         except Exception as e:  # noqa
             out.append({"error": "%s: %s" % (type(e).__name__, e)})
     _boot.write_result({"obs": out})
